@@ -151,6 +151,15 @@ ROLE_SYNONYMS = {
 }
 
 
+def pc_relative(mnemonic):
+    """Does the ISA define the immediate of this mnemonic as an offset from the instruction's own address?  (B / J formats, and the
+    compressed mnemonics whose expansion is one of those: c.j, c.jal, c.beqz, c.bnez.)  Taken from the oracle, not from the code."""
+    if oracle.RV32_FORMAT.get(mnemonic) in ('B', 'J'):
+        return True
+    spec = oracle.RVC.get(mnemonic)
+    return spec is not None and oracle.RV32_FORMAT.get(spec['expands'][0]) in ('B', 'J')
+
+
 def class_tables(facts):
     """{class name: set of table names} and {table name: [Outcome]}: for every mnemonic table, the parse_item outcomes a line that
     starts with one of its mnemonics can reach (decided from each path's facts about the first token, so it does not matter
@@ -329,6 +338,12 @@ def check_wiring(report, facts, rule, compressed, doc_text):
                         problems.append('immediate operand {} is not parsed by parse_immediate'.format(role))
                     if kind in ('reg', 'regc', 'num5') and shape.startswith('imm'):
                         problems.append('register operand {} is parsed as an immediate'.format(role))
+                    if shape == 'imm-offset' and not pc_relative(m):
+                        # `name operand` read as %offset(operand) = operand - position: only the target of a branch / jump is
+                        # pc-relative (ISA formats B / J and the compressed forms that expand to them)
+                        problems.append('a non-integer {} operand is wrapped in %offset (value - address of the instruction), but {} is not a '
+                                        'branch / jump: its operand is a plain value, so the same line would encode differently depending on '
+                                        'where it stands'.format(role, m))
                 if problems:
                     for pr in problems:
                         report.fail(Finding(rule, 'parse_item', o.node, '{}: {}'.format(label, pr), line=o.node.lineno), instance=label)
